@@ -89,7 +89,7 @@ inductive Ins where
   | unionTag (dst : Nat) (src : Opd)
   | unionVal (dst : Nat) (src : Opd) (n : Nat)
   | nop
-  | uns (what : String)
+  | uns (dst : Nat) (what : String)
 deriving Repr, Inhabited
 
 /-- control skeleton of instruction number `k` of its function: what `rustgen.rs` dispatches on.  `JmpIf` / `Switch` are
@@ -491,7 +491,7 @@ def stepCore (callF : CallF) (P : Prog) (i : Ins) (s : RSt) : Except Err CoreRes
   | .jmpIf c _ _ _ => do let _ ← readWord s (.reg c); .ok (res s .none)
   | .switch c _ _ _ => do let _ ← readWord s (.reg c); .ok (res s .none)
   | .nop => .ok (res s .none)
-  | .uns what => .error (.unsupported what)
+  | .uns _ what => .error (.unsupported what)
   | _ => .ok (res s .none)   -- state instructions, `Call` through a register and the other control instructions: see `stepIns` / `execBlockM`
 
 def stepRest (callF : CallF) (P : Prog) (i : Ins) (s : RSt) : Except Err RSt := do
